@@ -413,3 +413,17 @@ template <class T, size_t M, size_t N, size_t P, size_t Q> void op_permute4(Ctx 
 }
 } // namespace memsim
 
+namespace memsim {
+// the overloads taking lazy expressions are separate code paths (own scratch arrays)
+template <class T, size_t M, size_t N, size_t P> void op_permute_expr(Ctx &c) {
+    auto &a = c.own<Tensor<T, M, N, P>>(0, false); auto &b = c.own<Tensor<T, M, N, P>>(1, false); auto &o = c.own<Tensor<T, P, M, N>>(2, true); auto &o2 = c.own<Tensor<T, N, M, P>>(3, true);
+    enum { i, j, k };
+    c.run([&] { o = permute<Index<k, i, j>>(a + b); o2 = permutation<Index<j, i, k>>(a * (T)2 - b); });
+}
+template <class T, size_t M, size_t K, size_t N> void op_einsum_expr(Ctx &c) {
+    auto &a = c.own<Tensor<T, M, K>>(0, false); auto &b = c.own<Tensor<T, K, N>>(1, false); auto &o = c.own<Tensor<T, M, N>>(2, true); auto &o2 = c.own<Tensor<T, K, M>>(3, true);
+    enum { i, j, k };
+    c.run([&] { o = einsum<Index<i, j>, Index<j, k>>(a + a, b - b * (T)2); o2 = transpose(a + a); });
+}
+} // namespace memsim
+
